@@ -7,7 +7,10 @@ package main
 
 import (
 	"fmt"
+	"math"
+	"os"
 	"sort"
+	"time"
 
 	"harness/engc"
 	"harness/sim"
@@ -627,6 +630,73 @@ func head(a []uint32) []uint32 {
 	return a
 }
 
+// fullSet (thorough tier, next to the exploration): the one state no generated history reaches -
+// every uint32 a member, all 65536 buckets dense and full (2^32 calls of Add, half a gigabyte) -
+// and a few steps from there.
+func fullSet(path string) {
+	type result struct {
+		Values      uint64  `json:"values_added"`
+		Failure     string  `json:"failure,omitempty"`
+		WallSeconds float64 `json:"wall_s"`
+	}
+	start := time.Now()
+	var res result
+	smrand.Word = towerWords(0, 20260929)
+	stime.Clock = 1
+	fail := func(format string, a ...any) {
+		if res.Failure == "" {
+			res.Failure = fmt.Sprintf(format, a...)
+		}
+	}
+	var rb setz.RoaringBitmap
+	for v := uint64(0); v < 1<<32 && res.Failure == ""; v++ {
+		if !rb.Add(uint32(v)) {
+			fail("full set: Add(%d) on a bitmap that does not hold it returned false", v)
+		}
+		res.Values++
+	}
+	if res.Failure == "" {
+		if n := uint64(rb.Len()); n != 1<<32 {
+			fail("full set: all 2^32 values are members: Len() = %d", rb.Len())
+		}
+		for _, v := range []uint32{0, 1, 4095, 4096, 65535, 65536, 1 << 31, math.MaxUint32 - 1, math.MaxUint32} {
+			if !rb.Contains(v) {
+				fail("full set: Contains(%d) = false", v)
+			}
+			if rb.Add(v) {
+				fail("full set: Add(%d) of a member returned true", v)
+			}
+		}
+		want := uint32(0)
+		rb.Range(func(v uint32) bool {
+			if v != want {
+				fail("full set: Range delivered %d where %d was due", v, want)
+				return false
+			}
+			want++
+			return want < 200000
+		})
+		it := rb.Iter()
+		for i := uint32(0); i < 70000 && res.Failure == ""; i++ {
+			if !it.Next() || it.Value() != i {
+				fail("full set: Iter delivered %d where %d was due", it.Value(), i)
+			}
+		}
+		if !rb.Remove(math.MaxUint32) || rb.Contains(math.MaxUint32) {
+			fail("full set: Remove(MaxUint32) did not remove it")
+		}
+		if n := uint64(rb.Len()); res.Failure == "" && n != 1<<32-1 {
+			fail("full set: one value removed from all 2^32: Len() = %d", rb.Len())
+		}
+	}
+	res.WallSeconds = time.Since(start).Seconds()
+	sim.WriteJSON(path, res)
+}
+
 func main() {
+	if p := os.Getenv("VERIF_C01_WRAP"); p != "" {
+		fullSet(p)
+		return
+	}
 	engc.Main(&engc.Spec{ID: "C03", Gen: gen, Exec: exec})
 }
